@@ -57,14 +57,14 @@ pub fn representable(q: &MQ) -> bool {
 }
 
 /// i18n datatype IRIs that the JSON-LD "i18n-datatype" convention defines: `#<lang>_<dir>`,
-/// `<lang>` empty or a lower-case well-formed tag, `<dir>` ltr or rtl.
+/// `<lang>` empty or a well-formed tag (any case: the case must be preserved), `<dir>` ltr or rtl.
 fn i18n_canonical(dt: &str) -> bool {
     let Some(rest) = dt.strip_prefix(I18N) else { return false };
     let Some((lang, dir)) = rest.split_once('_') else { return false };
     (dir == "ltr" || dir == "rtl")
         && (lang.is_empty()
-            || (lang.split('-').all(|p| !p.is_empty() && p.len() <= 8 && p.chars().all(|c| c.is_ascii_lowercase() || c.is_ascii_digit()))
-                && lang.chars().next().unwrap().is_ascii_lowercase()))
+            || (lang.split('-').all(|p| !p.is_empty() && p.len() <= 8 && p.chars().all(|c| c.is_ascii_alphanumeric()))
+                && lang.chars().next().unwrap().is_ascii_alphabetic()))
 }
 
 // ------------------------------------------------------------------ JCS-canonical JSON generation
@@ -212,6 +212,8 @@ fn literal() -> BoxedStrategy<MT> {
         format!("{I18N}en"),
         format!("{I18N}"),
         format!("{I18N}EN_ltr"),
+        format!("{I18N}en-US_ltr"),
+        format!("{I18N}zh-Hant_rtl"),
         format!("{I18N}en_foo"),
     ];
     prop_oneof![
@@ -797,7 +799,7 @@ impl Check for C12 {
         vec![
             "use_native_types is never set (the specification defines it as lossy)".into(),
             "under rdf_direction=compound-literal, quads <x rdf:language \"s\"> where s is not of the form [a-z]{2,3}(-[a-z0-9]{2,8})* are removed from the input before serialising (counter excluded/...): sophia's LanguageTag accepts them, the json-ld crate's BCP47 parser does not, and drops the whole value object".into(),
-            "under rdf_direction=i18n-datatype, literals whose datatype is in the i18n namespace but not of the form #<lower-case lang or empty>_<ltr|rtl> are removed from the input before serialising (counter excluded/...): the W3C to-RDF and from-RDF algorithms are not inverse on them".into(),
+            "under rdf_direction=i18n-datatype, literals whose datatype is in the i18n namespace but not of the form #<well-formed lang or empty>_<ltr|rtl> are removed from the input before serialising (counter excluded/...): the W3C to-RDF and from-RDF algorithms are not inverse on them".into(),
             "rdf:JSON literals are generated in RFC 8785 canonical form (integers, n+0.5, strings, arrays, objects with distinct keys)".into(),
             "language tags are compared case-insensitively".into(),
             "the serializer iterates HashMaps, so the member order of its output varies between processes; the check itself is a pure function of the case".into(),
